@@ -11,7 +11,8 @@ def make_cases(rng, tier, diff_here):
     cases = []
     layerings = [[], [[]], [["ra"]], [["ra", "rb"], ["rc"]], [["ra"], [], ["rb", "rc"]], [["zz"], ["ra", "rb"]],
                  [["ra", "ra"], ["rb"]], [["ra", "rb", "rc"], ["rd"], ["re", "zz"]], [["zz", "yy"], ["ra"]],
-                 [["ra"], ["rb"], ["rc"], ["rd"]], [["rd", "rc"], ["rb", "ra"]]]
+                 [["ra"], ["rb"], ["rc"], ["rd"]], [["rd", "rc"], ["rb", "ra"]],
+                 [["", "ra"], ["rb", "", "zz", "rb"], [], ["rc"]], [["ra", ""], [""], ["rb"]]]
     k = 5
     fsets = [()] + [(i,) for i in range(k)] + ([(0, 3), (1, 2)] if tier == "quick" else list(itertools.combinations(range(k), 2)))
     for ly in layerings:
@@ -27,7 +28,7 @@ def make_cases(rng, tier, diff_here):
     return cases
 
 
-RULE = ("systematic: 11 layerings (0-4 layers, empty layers, unknown names, duplicate names, widths 1-3) x failing subsets (none, each single rule, pairs) x fresh/previously-used engine, "
+RULE = ("systematic: 13 layerings (0-4 layers, empty layers, unknown names incl. the empty string, duplicate names, widths 1-3) x failing subsets (none, each single rule, pairs) x fresh/previously-used engine, "
         "one rule held at its gate in most calls so that a missing layer barrier shows in the trace; random: 150 (thorough 5000) layerings.")
 
 
